@@ -241,6 +241,72 @@ def _ob_open(oi: int, i: int, j: int, order: int) -> bool:
         return open_row(oi, i, j, order)
 
 
+# ---- components of a field of type varies (OBX-5, QPD-3, the fields beyond the last defined one of an open-ended segment) ----------
+VARIES = []     # (version, segment, field number)
+for _v in T.VERSIONS:
+    for _s in T.SEGS[_v]:
+        _ch = T.seg_children(_v, _s)
+        if not _ch:
+            continue
+        for _c in _ch:
+            if T.child_datatype(_c) == 'varies':
+                VARIES.append((_v, _s, T.child_number(_c[0]), False))
+        if T.child_datatype(_ch[-1]) == 'varies':
+            VARIES.append((_v, _s, T.child_number(_ch[-1][0]) + 2, True))       # a field beyond the defined count
+NVAR = len(VARIES)
+VWAYS = ['f.varies_j = text', 'f.varies_j.value = text', 'f.<seg>_<i>_<j> = text', 'seg.<seg>_<i>.varies_j = text (navigation)']
+NVW = len(VWAYS)
+VMAXJ = 4
+
+
+def varies_row(r, j, k, way, trace=None):
+    """component j (and, k > 0, its subcomponent k by text 'a&b') of a varies field is written at position j and read back"""
+    v, s, n, beyond = VARIES[r]
+    if beyond:
+        way = 3      # a field beyond the defined count exists only inside its segment
+    fname = '%s_%d' % (s, n)
+    seg = Segment(s, version=v, validation_level=2)
+    text = 'X' if k == 0 else '&' * (k - 1) + 'X'
+    if way == 3:
+        setattr(getattr(seg, fname.lower()), 'varies_%d' % j, text)
+    else:
+        f = Field(fname, version=v, validation_level=2) if way != 3 else None
+        if way == 0:
+            setattr(f, 'varies_%d' % j, text)
+        elif way == 1:
+            getattr(f, 'varies_%d' % j).value = text
+        else:
+            setattr(f, '%s_%d' % (fname.lower(), j), text)
+        seg.add(f)
+    got = seg.to_er7()
+    want = s + '|' * n + '^' * (j - 1) + text
+    if trace is not None:
+        trace.append('%s %s.%s component %d%s by %s -> %r (expected %r)' % (v, s, fname, j, ' subcomponent %d' % k if k else '', VWAYS[way], got, want))
+    if got != want:
+        return False
+    back = parse_segment(got, version=v, validation_level=2)
+    comp = getattr(getattr(back, fname.lower()), 'varies_%d' % j)
+    ok = back.to_er7() == got and len(comp) == 1 and comp[0].to_er7() == text
+    if trace is not None:
+        trace.append('parsed back: %r, component read by name %r' % (back.to_er7(), [c.to_er7() for c in comp]))
+    return ok
+
+
+def _ob_varies(r: int, j: int, k: int, way: int) -> bool:
+    """
+    pre: 0 <= r < NVAR and 1 <= j <= VMAXJ and 0 <= k <= 2 and 0 <= way < NVW
+    pre: in_part(r)
+    post: _
+    """
+    r = bsearch(r, NVAR)
+    j = bsearch(j - 1, VMAXJ) + 1
+    k = bsearch(k, 3)
+    way = bsearch(way, NVW)
+    with concrete():
+        reset_defaults()
+        return varies_row(r, j, k, way)
+
+
 # ---- E3: table obligations decided by z3 over ground facts ---------------------------------------------------
 def _e3_run(which):
     """Table obligations as z3 queries over ground facts read from the live tables.
@@ -418,6 +484,9 @@ SPEC = {
          'bound': 'every segment entry and every complex datatype of every version is instantiated'},
         {'name': 'Z.open', 'fn': '_ob_open', 'parts': 32, 'cond_timeout': 1200, 'path_timeout': 60,
          'bound': '%d open-ended (version, segment) pairs x every i<j<=%d beyond the defined count x both orders' % (NO, NOPEN)},
+        {'name': 'V.varies', 'fn': '_ob_varies', 'parts': 16, 'cond_timeout': 1200, 'path_timeout': 60,
+         'bound': '%d fields of type varies (all versions; incl. one field beyond the defined count of every open-ended segment) x component '
+                  'j<=%d x (whole component | subcomponent 1..2) x %d ways of writing it' % (NVAR, VMAXJ, NVW)},
         {'name': 'T.fields', 'engine': 'E3', 'worker': '_e3_fields',
          'bound': 'z3 over ground facts for ALL field rows: exists row with number != ordinal+1; exists segment without children'},
         {'name': 'T.comps', 'engine': 'E3', 'worker': '_e3_comps',
